@@ -357,9 +357,21 @@ class Fn:
         rq = qual(f)
         rt = norm_type(re.sub(r"\s*\(.*$", "", self.return_qual(f)))
         if rt.startswith("?") or rt.startswith("opt:?"):
-            for st in body_of(f)["inner"]:
-                if st.get("kind") == "ReturnStmt":
-                    rt = norm_type(qual(st["inner"][0]))
+            # enable_if / decltype return types: the type of the first return statement (not inside a lambda)
+            def first_return(n):
+                if n.get("kind") == "ReturnStmt":
+                    return n
+                if n.get("kind") == "LambdaExpr":
+                    return None
+                for c in n.get("inner", []):
+                    if isinstance(c, dict):
+                        r = first_return(c)
+                        if r is not None:
+                            return r
+                return None
+            st = first_return(body_of(f))
+            if st is not None and st.get("inner"):
+                rt = norm_type(qual(st["inner"][0]))
         self.ret_type = rt
         lines = self.block(body_of(f)["inner"], env, ret=True)
         extra = "".join(f" ({c} : Int)" for c in self.consts)
@@ -881,17 +893,52 @@ class Fn:
         rq = meth["type"].get("desugaredQualType") or meth["type"]["qualType"]
         return params, body, meth
 
+    def typed_uses(self, n, acc):
+        """C++ variables referenced below n, with their types"""
+        if n.get("kind") == "DeclRefExpr" and n.get("referencedDecl", {}).get("kind") in ("VarDecl", "ParmVarDecl"):
+            acc.setdefault(n["referencedDecl"]["name"], norm_type(qual(n)))
+        for c in n.get("inner", []):
+            if isinstance(c, dict) and "kind" in c:
+                self.typed_uses(c, acc)
+
     def inline_lambda(self, lam, env, args, ret_type=None):
         params, body, meth = self.lambda_parts(lam)
         e2 = dict(env)
         for p, a in zip(params, args):
             e2[p["name"]] = a
+        entry = dict(e2)
         saved = self.ret_type
         self.ret_type = ret_type
+        nloops = len(self.loops)
         lines = self.block(body["inner"], e2, ret="lambda")
         self.ret_type = saved
-        return "(do " + "; ".join(lines) + ")" if all("\n" not in l and not l.startswith("if ") and not l.startswith("else") and not l.startswith("  ") for l in lines) \
-            else "(do\n" + "".join("      " + l + "\n" for l in lines) + "    )"
+        if all("\n" not in l and not l.startswith("if ") and not l.startswith("else") and not l.startswith("  ") for l in lines):
+            return "(do " + "; ".join(lines) + ")"
+        # a body with statement-level control flow becomes a helper definition `<function>.lam<k>` over the captured variables
+        if ret_type is None:
+            raise Unsupported("multi-statement lambda of unknown result type")
+        uses = {}
+        self.typed_uses(body, uses)
+        sig, actual, seen = [], [], set()
+        for cname, t in uses.items():
+            r = self.resolve(cname)
+            if r not in entry or entry[r] in seen:
+                continue
+            seen.add(entry[r])
+            if not re.fullmatch(r"[A-Za-z_][A-Za-z_0-9]*", entry[r]):
+                raise Unsupported("captured value is not a variable")
+            sig.append(f"({entry[r]} : {self.lean_type(t)})")
+            actual.append(entry[r])
+        text = "\n".join(lines)
+        for c in self.consts:
+            if re.search(r"(?<![\w.])" + re.escape(c) + r"(?![\w.])", text):
+                sig.append(f"({c} : Int)")
+                actual.append(c)
+        self.nlam = getattr(self, "nlam", 0) + 1
+        lname = f"{self.name}.lam{self.nlam}"
+        src = f"def {lname} " + " ".join(sig) + f" : M {self.lean_type(ret_type)} := do\n" + "".join("  " + l + "\n" for l in lines) + "\n"
+        self.loops.append(src)
+        return f"({lname} " + " ".join(actual) + ")" if actual else lname
 
     def call(self, n, env, out, want):
         inner = n["inner"]
@@ -1047,6 +1094,8 @@ def unfold_macros(em, families):
             seen.append(n)
             todo += sorted(calls.get(n, ()))
         seen = [n for n in names if n in seen]
+        # lambda bodies that became helper definitions belong to their function
+        seen = [m for n in seen for m in re.findall(r"^def (\S+\.lam\d+) ", em.defs[n], re.M) + [n]]
         out += f"macro \"gen_unfold_{fam}\" : tactic => `(tactic| simp only [" + ", ".join(seen) + "])\n"
     return out
 
